@@ -180,7 +180,7 @@ func c20Pred(r *rng, depth int, allowDollarArg bool) *qPath {
 		p.parts = append(p.parts, qPart{kind: 'k', name: r.Pick(c20Sub)})
 	}
 	if depth > 0 && r.Intn(6) == 0 {
-		p.parts = append(p.parts, qPart{kind: 'f', group: c20Group(r, '@', depth-1, 1+r.Intn(2), false)})
+		p.parts = append(p.parts, qPart{kind: 'f', group: c20Group(r, '@', depth-1, 1+r.Intn(2), allowDollarArg)}) // a filter inside a filter condition may read `$` too
 		p.parts = append(p.parts, qPart{kind: 'c', name: "Any"})
 		return p
 	}
@@ -205,6 +205,10 @@ func c20Pred(r *rng, depth int, allowDollarArg bool) *qPath {
 
 func c20Group(r *rng, root byte, depth int, n int, allowDollarArg bool) *qGroup {
 	g := &qGroup{mode: r.Pick([]string{"", "AND", "OR"})}
+	if r.Intn(14) == 0 {
+		// a word that is no operator: the parser flags the group, the evaluator still evaluates its operands, so they are read
+		g.mode = r.Pick([]string{"NOT", "XOR", "and", "Or"})
+	}
 	for i := 0; i < n; i++ {
 		if depth > 0 && r.Intn(6) == 0 {
 			g.ops = append(g.ops, qOp{group: c20Group(r, root, depth-1, 1+r.Intn(2), allowDollarArg)})
